@@ -34,10 +34,10 @@ pub static DEF: CheckDef = CheckDef {
 
 fn families(t: Tier) -> Vec<(&'static str, u64)> {
     vec![
-        ("unary", t.n(6_000, 60_000)),
+        ("unary", t.n(12_000, 120_000)),
         ("binary", t.n(14_400, 14_400 * 6)),
-        ("matmul", t.n(6_000, 120_000)),
-        ("conv", t.n(3_000, 60_000)),
+        ("matmul", t.n(20_000, 240_000)),
+        ("conv", t.n(10_000, 120_000)),
     ]
 }
 fn floors(_t: Tier) -> Vec<(&'static str, u64)> {
